@@ -129,6 +129,8 @@ func drive(prop string, r *rand.Rand, w *writer, n int) {
 		driveMag(r, w, n)
 	case "SWEEP":
 		driveSweep(r, w, n)
+	case "UTIL":
+		driveUtil(r, w, n)
 	case "C04":
 		driveTree(r, w, n)
 	case "C09":
@@ -230,6 +232,13 @@ func reexec(b []byte, w *writer) {
 		old := e.Probes
 		execMag(r, &e)
 		e.Probes = mergeProbes(e.Probes, old)
+		w.emit(&e)
+	case "Util":
+		var e UtilEv
+		if err := json.Unmarshal(b, &e); err != nil {
+			fatal(err)
+		}
+		execUtil(&e)
 		w.emit(&e)
 	case "Sweep":
 		var e SweepEv
